@@ -16,19 +16,21 @@
 (*          gave, [st, paras (key list per paragraph)], for the input      *)
 (*          forms s (str), f (io.StringIO), b (io.BytesIO) and the         *)
 (*          settings F (whitespace-separates-paragraphs: False) and T      *)
-(*          (default):  sF sT fF fT bF bT.                                 *)
+(*          (default):  sF sT fF fT bF bT; stored as a table of the        *)
+(*          distinct observations (rb.o) and an index per name (rb.ix).    *)
 (* An event is explained when                                              *)
 (*   - acc agrees with Classify(v) where the statement decides ("accept" / *)
 (*     "reject"; "zone" and "blank" are unspecified: the trace follows the *)
 (*     code's decision),                                                   *)
 (*   - not accepted: res = "ValueError" and items = the paragraph before,  *)
-(*   - accepted: items = the paragraph with v stored, and every read-back  *)
-(*     with setting F -- and with T when no value of the paragraph has a   *)
-(*     blank continuation line -- is exactly one paragraph with the keys   *)
-(*     of the paragraph.                                                   *)
+(*   - accepted: items has the field names of the paragraph before (it is  *)
+(*     adopted as the new paragraph), and every read-back with setting F   *)
+(*     -- and with T when no value of the paragraph has a blank            *)
+(*     continuation line -- is exactly one paragraph with those names.     *)
 (* Independently (diagnostic, never a rejection) the reader model of       *)
 (* Deb822Value is evaluated on the concrete dump and compared with all six *)
-(* observed read-backs: a difference prints <<"REJECT", tid, l, "model">>  *)
+(* observed read-backs, the stored value with v and Validate with the      *)
+(* statement layer: a difference prints <<"REJECT", tid, l, "model">>      *)
 (* (reported as spec drift).  With TRACE_DIAG = "1" the first unexplained  *)
 (* event prints <<"REJECT", tid, l, reasons>>.                             *)
 (***************************************************************************)
@@ -46,8 +48,12 @@ TInit == /\ tid \in 1..Len(Traces)
          /\ inp = <<>> /\ out = <<>> /\ res = "none"
          /\ para = Traces[tid].init
 
-After(e) == IF e.acc THEN Stored(para, e.pos, e.v) ELSE para
+\* the statement speaks about "the paragraph" after an accepted assignment, not about how the
+\* value is stored: the observed paragraph is adopted (its field names must be the old ones)
+After(e) == IF e.acc THEN e.items ELSE para
 
+\* rb = [o |-> <<distinct observations>>, ix |-> [sF |-> index into o, ...]]
+RBof(e, n) == e.rb.o[e.rb.ix[n]]
 FNames == {"sF", "fF", "bF"}
 TNames == {"sT", "fT", "bT"}
 
@@ -58,18 +64,19 @@ Checks(e) == LET cls == Classify(e.v)
                    <<"must-reject", cls = "reject" => ~e.acc>>,
                    <<"exception-type", e.res = IF e.acc THEN "ok" ELSE "ValueError">>,
                    <<"reject-atomic", ~e.acc => e.items = para>>,
-                   <<"stored", e.acc => e.items = q>>,
-                   <<"readback-ws-false", e.acc => \A n \in FNames : e.rb[n] = OneParagraph(q)>>,
-                   <<"readback-default", (e.acc /\ AllNoBlank(q)) => \A n \in TNames : e.rb[n] = OneParagraph(q)>> >>
+                   <<"keys-kept", e.acc => KeysOf(e.items) = KeysOf(para)>>,
+                   <<"readback-ws-false", e.acc => \A n \in FNames : RBof(e, n) = OneParagraph(q)>>,
+                   <<"readback-default", (e.acc /\ AllNoBlank(q)) => \A n \in TNames : RBof(e, n) = OneParagraph(q)>> >>
 Explained(e) == LET c == Checks(e) IN \A i \in 1..Len(c) : c[i][2]
 Reasons(e)   == LET c == Checks(e) IN SelectSeq([i \in 1..Len(c) |-> IF c[i][2] THEN "" ELSE c[i][1]], LAMBDA s : s # "")
 
 \* the transcription of the reader, evaluated on the concrete text
-ModelAgrees(e) == (e.acc /\ e.items = After(e)) =>
+ModelAgrees(e) == e.acc =>
                   LET o == ObsAll(After(e)) IN
-                  /\ e.rb["sF"] = o["str"][FALSE]  /\ e.rb["sT"] = o["str"][TRUE]
-                  /\ e.rb["fF"] = o["file"][FALSE] /\ e.rb["fT"] = o["file"][TRUE]
-                  /\ e.rb["bF"] = o["file"][FALSE] /\ e.rb["bT"] = o["file"][TRUE]
+                  /\ e.items = Stored(para, e.pos, e.v)
+                  /\ RBof(e, "sF") = o["str"][FALSE]  /\ RBof(e, "sT") = o["str"][TRUE]
+                  /\ RBof(e, "fF") = o["file"][FALSE] /\ RBof(e, "fT") = o["file"][TRUE]
+                  /\ RBof(e, "bF") = o["file"][FALSE] /\ RBof(e, "bT") = o["file"][TRUE]
 \* the transcription of the validator against the statement layer, on the concrete value
 ValidatorAgrees(e) == Accept(e.v) <=> ~DefectU(e.v)
 
